@@ -465,7 +465,16 @@ func handlePM(raw json.RawMessage) interface{} {
 		reqWG.Wait()
 		time.Sleep(time.Duration(c.Timeout)*time.Second + 900*time.Millisecond)
 	}
-	// quiet: final counts
+	// quiet: final counts.  "Once the system is quiet" - on a heavily loaded machine the refill may simply not have been scheduled yet: before
+	// the pool is declared short, it gets up to 10 more seconds (a pool that lost track of a worker never refills, however long one waits)
+	for t0 := time.Now(); time.Since(t0) < 10*time.Second; time.Sleep(100 * time.Millisecond) {
+		ctl.mu.Lock()
+		nl := len(ctl.live)
+		ctl.mu.Unlock()
+		if nl >= c.Init && procChildren() >= c.Init {
+			break
+		}
+	}
 	finalProc := procChildren()
 	ctl.mu.Lock()
 	finalLive := len(ctl.live)
